@@ -317,6 +317,8 @@ def history_harness(k):
                 old = root.d["k"]
                 root.d["k"] = VLeaf()
                 trace.append("twin")
+                if any(v_ is old for v_ in root.d.values()):
+                    continue              # still in the dict under its other key: not detached
                 calls[0] = calls[1] = 0
                 old.b += 1
                 ok = ex.check(calls[0] == 0 and calls[1] == 0, "a dict value replaced by an equal object is detached")
@@ -604,7 +606,7 @@ def multi_maintainer_alien(v):
         elif op == 1 and reg.get((h, e), 0) > 0:
             reg[(h, e)] -= 1
         elif op == 7:
-            graphs = sum(c * (2 if e_ == 4 else 1) for (h_, e_), c in reg.items() if c > 0 and e_ in (1, 2, 4))
+            graphs = sum(c * (2 if e_ == 4 else 1) for (h_, e_), c in reg.items() if c > 0 and e_ in (1, 2, 4, 6))
             if graphs >= 2:
                 return True
         i += 1
